@@ -342,16 +342,25 @@ class VizierServicer(vizier_service_pb2_grpc.VizierServiceServicer):
 
       # Get suggestions from the pool of requested trials.
       output_trials = active_trials
-      requested_trials = [
-          t for t in all_trials if t.state == study_pb2.Trial.State.REQUESTED
-      ]
-      while requested_trials and request.suggestion_count > len(output_trials):
-        assigned_trial = requested_trials.pop()
-        assigned_trial.state = study_pb2.Trial.State.ACTIVE
-        assigned_trial.client_id = request.client_id
-        assigned_trial.start_time.CopyFrom(start_time)
-        self.datastore.update_trial(assigned_trial)
-        output_trials.append(assigned_trial)
+      # Trials are edited under the per-study lock (CreateTrial, CompleteTrial,
+      # UpdateMetadata, DeleteTrial, ...): take it and re-read the pool, so that
+      # no stale copy is written back.
+      with self._study_name_to_lock[study_name]:
+        requested_trials = [
+            t
+            for t in self.datastore.list_trials(study_name)
+            if t.state == study_pb2.Trial.State.REQUESTED
+        ]
+        while (
+            requested_trials
+            and request.suggestion_count > len(output_trials)
+        ):
+          assigned_trial = requested_trials.pop()
+          assigned_trial.state = study_pb2.Trial.State.ACTIVE
+          assigned_trial.client_id = request.client_id
+          assigned_trial.start_time.CopyFrom(start_time)
+          self.datastore.update_trial(assigned_trial)
+          output_trials.append(assigned_trial)
 
       if len(output_trials) == request.suggestion_count:
         # We've finished collecting enough trials from the REQUESTED pool.
@@ -415,15 +424,16 @@ class VizierServicer(vizier_service_pb2_grpc.VizierServiceServicer):
 
       # Write the metadata update to the datastore.
       try:
-        self.datastore.update_metadata(
-            study_name,
-            svz.metadata_util.make_key_value_list(
-                suggest_decision.metadata.on_study
-            ),
-            svz.metadata_util.trial_metadata_to_update_list(
-                suggest_decision.metadata.on_trials
-            ),
-        )
+        with self._study_name_to_lock[study_name]:
+          self.datastore.update_metadata(
+              study_name,
+              svz.metadata_util.make_key_value_list(
+                  suggest_decision.metadata.on_study
+              ),
+              svz.metadata_util.trial_metadata_to_update_list(
+                  suggest_decision.metadata.on_trials
+              ),
+          )
       except KeyError as e:
         output_op.error.CopyFrom(
             status_pb2.Status(code=code_pb2.Code.INTERNAL, message=str(e))
@@ -441,29 +451,32 @@ class VizierServicer(vizier_service_pb2_grpc.VizierServiceServicer):
       ]
       new_trials = svz.TrialConverter.to_protos(new_py_trials)
 
-      # Pythia may under-deliver; hand out what it produced.
-      while new_trials and request.suggestion_count > len(output_trials):
-        new_trial = new_trials.pop()
-        trial_id = self.datastore.max_trial_id(request.parent) + 1
-        new_trial.id = str(trial_id)
-        new_trial.name = TrialResource(owner_id, study_id, trial_id).name
-        new_trial.state = study_pb2.Trial.State.ACTIVE
-        new_trial.start_time.CopyFrom(start_time)
-        new_trial.client_id = request.client_id
-        self.datastore.create_trial(new_trial)
-        output_trials.append(new_trial)
+      # Trial ids are allocated as max_trial_id() + 1; CreateTrial does the same
+      # under the per-study lock, so hold it while creating trials.
+      with self._study_name_to_lock[study_name]:
+        # Pythia may under-deliver; hand out what it produced.
+        while new_trials and request.suggestion_count > len(output_trials):
+          new_trial = new_trials.pop()
+          trial_id = self.datastore.max_trial_id(request.parent) + 1
+          new_trial.id = str(trial_id)
+          new_trial.name = TrialResource(owner_id, study_id, trial_id).name
+          new_trial.state = study_pb2.Trial.State.ACTIVE
+          new_trial.start_time.CopyFrom(start_time)
+          new_trial.client_id = request.client_id
+          self.datastore.create_trial(new_trial)
+          output_trials.append(new_trial)
 
-      output_op.response.value = vizier_service_pb2.SuggestTrialsResponse(
-          trials=output_trials, start_time=start_time
-      ).SerializeToString()
+        output_op.response.value = vizier_service_pb2.SuggestTrialsResponse(
+            trials=output_trials, start_time=start_time
+        ).SerializeToString()
 
-      # Store remaining trials as REQUESTED if Pythia over-delivered.
-      for remain_trial in new_trials:
-        trial_id = self.datastore.max_trial_id(request.parent) + 1
-        remain_trial.id = str(trial_id)
-        remain_trial.name = TrialResource(owner_id, study_id, trial_id).name
-        remain_trial.state = study_pb2.Trial.State.REQUESTED
-        self.datastore.create_trial(remain_trial)
+        # Store remaining trials as REQUESTED if Pythia over-delivered.
+        for remain_trial in new_trials:
+          trial_id = self.datastore.max_trial_id(request.parent) + 1
+          remain_trial.id = str(trial_id)
+          remain_trial.name = TrialResource(owner_id, study_id, trial_id).name
+          remain_trial.state = study_pb2.Trial.State.REQUESTED
+          self.datastore.create_trial(remain_trial)
 
       output_op.done = True
       self.datastore.update_suggestion_operation(output_op)
@@ -779,15 +792,16 @@ class VizierServicer(vizier_service_pb2_grpc.VizierServiceServicer):
           early_stopping_decisions_proto
       )
       # Update metadata from result.
-      self.datastore.update_metadata(
-          study_name,
-          svz.metadata_util.make_key_value_list(
-              early_stopping_decisions.metadata.on_study
-          ),
-          svz.metadata_util.trial_metadata_to_update_list(
-              early_stopping_decisions.metadata.on_trials
-          ),
-      )
+      with self._study_name_to_lock[study_name]:
+        self.datastore.update_metadata(
+            study_name,
+            svz.metadata_util.make_key_value_list(
+                early_stopping_decisions.metadata.on_study
+            ),
+            svz.metadata_util.trial_metadata_to_update_list(
+                early_stopping_decisions.metadata.on_trials
+            ),
+        )
 
       # Pythia does not guarantee that the output_operation's id
       # will be in the decisions.
